@@ -29,6 +29,7 @@ type Engine struct {
 	invariants     []*InvariantDecl
 	guarded        []*GuardedDecl
 	guardNotes     []string // accessors demoted because their callers are not all visible
+	extObserved []types.Type
 	guardAssume    []string // assumptions of the guarded-by check
 	lemmas         []*LemmaDecl
 	globals        []*GlobalFact
@@ -1053,6 +1054,10 @@ func (e *Engine) contractMod(ms *ModSet, con *Contract, fn *ssa.Function, caller
 				// whatever is reachable (by type) from the call's arguments; needs the call: handled by the caller
 				continue
 			}
+			if p == "nothing" {
+				// allocates, writes no existing object
+				continue
+			}
 			if strings.Contains(p, "!") {
 				ms.keys[p] = true
 			} else if strings.HasPrefix(p, "cellof(") || strings.HasPrefix(p, "rowof(") {
@@ -1299,6 +1304,44 @@ func (e *Engine) repoNamedTypes() []types.Type {
 	return e.namedTypes
 }
 
+// observedExternalTypes: named struct types defined outside the repository whose fields the repository's own code
+// reads or writes (e.g. io.LimitedReader.N). An object of such a type handed to a dependency behind an interface can
+// be changed by it, and the repository can see the change.
+func (e *Engine) observedExternalTypes() []types.Type {
+	if e.extObserved != nil {
+		return e.extObserved
+	}
+	seen := map[string]bool{}
+	e.extObserved = []types.Type{}
+	for fn := range e.allFuncs {
+		if !e.inRepo(fn) {
+			continue
+		}
+		for _, b := range fn.Blocks {
+			for _, ins := range b.Instrs {
+				fa, ok := ins.(*ssa.FieldAddr)
+				if !ok {
+					continue
+				}
+				pt, ok := fa.X.Type().Underlying().(*types.Pointer)
+				if !ok {
+					continue
+				}
+				nt, ok := pt.Elem().(*types.Named)
+				if !ok || nt.Obj().Pkg() == nil || strings.HasPrefix(nt.Obj().Pkg().Path(), modulePath) {
+					continue
+				}
+				if k := typeKey(nt); !seen[k] {
+					seen[k] = true
+					e.extObserved = append(e.extObserved, nt)
+				}
+			}
+		}
+	}
+	sort.Slice(e.extObserved, func(i, j int) bool { return typeKey(e.extObserved[i]) < typeKey(e.extObserved[j]) })
+	return e.extObserved
+}
+
 // externalWriteSet: what code outside the repository (no contract) may write, derived from the static types at the call.
 func (e *Engine) externalWriteSet(c *ssa.CallCommon) (types_, elems, maps_, ghostOwners map[string]bool, anything bool) {
 	types_ = map[string]bool{}
@@ -1363,6 +1406,12 @@ func (e *Engine) externalWriteSet(c *ssa.CallCommon) (types_, elems, maps_, ghos
 				if types.Implements(nt, u) || types.Implements(types.NewPointer(nt), u) {
 					types_[typeKey(nt)] = true
 					walk(nt, depth+1)
+				}
+			}
+			// library types implementing it whose fields the repository looks at
+			for _, nt := range e.observedExternalTypes() {
+				if types.Implements(nt, u) || types.Implements(types.NewPointer(nt), u) {
+					types_[typeKey(nt)] = true
 				}
 			}
 		}
